@@ -257,7 +257,106 @@ def r09_5(chk, P):
     return n
 
 
+def r09_6(chk, P):
+    chk.rule('R09.6', 'the first packet after a (re)start contributes no samples: every accumulation X += (last+this)>>2 of block '
+             'overlaps in vorbisfile.c (initial granule offset of a link, raw seek, sample-accurate seek), where `last` is the '
+             'local that is afterwards set to `this`, is evaluated only while `last` cannot hold the value it is initialised / '
+             'reset with (K4: the interval of `last` at the accumulation excludes that constant).  Sibling sites of one '
+             'computation must agree on this')
+    import absint
+    n = 0
+    for F in P.functions():
+        if not F.file.endswith('vorbisfile.c'):
+            continue
+        sites = []
+        for e in F.pos:
+            nd = F.ex[e]
+            if nd['k'] != 'assign' or nd['op'] != '+=':
+                continue
+            r = F.ex[F.strip_casts(nd['c'][1])]
+            if not (r['k'] == 'bin' and r['op'] == '>>' and common.const_val(F, r['c'][1]) == 2):
+                continue
+            a = F.ex[F.strip_casts(r['c'][0])]
+            if not (a['k'] == 'bin' and a['op'] == '+'):
+                continue
+            x, y = (F.ex[F.strip_casts(c)] for c in a['c'])
+            if x['k'] != 'ref' or y['k'] != 'ref':
+                continue
+            ix, iy = x['decl'].get('id'), y['decl'].get('id')
+            # which of the two is copied from the other afterwards?
+            last = None
+            for q in F.pos:
+                qn = F.ex[q]
+                if qn['k'] == 'assign' and qn['op'] == '=':
+                    l, rr = F.ex[F.strip_casts(qn['c'][0])], F.ex[F.strip_casts(qn['c'][1])]
+                    if l['k'] == 'ref' and rr['k'] == 'ref':
+                        if l['decl'].get('id') == ix and rr['decl'].get('id') == iy:
+                            last = (ix, a['c'][0] if F.ex[F.strip_casts(a['c'][0])] is x else a['c'][1])
+                        elif l['decl'].get('id') == iy and rr['decl'].get('id') == ix:
+                            last = (iy, a['c'][1] if F.ex[F.strip_casts(a['c'][1])] is y else a['c'][0])
+            if last:
+                sites.append((e, last[0], last[1]))
+        if not sites:
+            continue
+        # constants `last` is initialised / reset with
+        inits = {}
+        for (e, lid, le_) in sites:
+            cs = set()
+            var = F.vars.get(lid, {})
+            for q, qn in F.ex.items():
+                if qn['k'] == 'decl':
+                    for v in qn.get('vars', []):
+                        if v.get('id') == lid and v.get('init') is not None:
+                            c = _constv(F, v['init'])
+                            if c is not None:
+                                cs.add(c)
+                if qn['k'] == 'assign' and qn['op'] == '=' and q in F.pos:
+                    l = F.ex[F.strip_casts(qn['c'][0])]
+                    if l['k'] == 'ref' and l['decl'].get('id') == lid:
+                        c = _constv(F, qn['c'][1])
+                        if c is not None:
+                            cs.add(c)
+            inits[lid] = cs
+        seen = {}
+
+        def obs(A, env, e, v):
+            for (se, lid, le_) in sites:
+                if e == se:
+                    seen[se] = absint.join(seen.get(se), env.get(f'v{lid}') or absint.TOP)
+        A = absint.Analyzer(P, F)
+        A.observers.append(obs)
+        A.run()
+        for i, (e, lid, le_) in enumerate(sorted(sites, key=lambda t: F.ex[t[0]]['loc'])):
+            v = seen.get(e)
+            nm = F.vars.get(lid, {}).get('name', '?')
+            cs = inits.get(lid) or set()
+            if v is None:
+                chk.ob('R09.6', F.name, f'overlap-sum-skips-first-packet#{i}', True, F.where(e), 'the accumulation is unreachable')
+                n += 1
+                continue
+            incl = sorted(c for c in cs if v.lo <= c <= v.hi and c not in v.ne)
+            ok = bool(cs) and not incl
+            chk.ob('R09.6', F.name, f'overlap-sum-skips-first-packet#{i}', ok, F.where(e),
+                   f'{nm} is {v} at the accumulation, its start value(s) {sorted(cs)} excluded' if ok else
+                   f'{nm} can still hold its start value {incl or sorted(cs)} at the accumulation ({nm} is {v}): the first packet, which '
+                   'produces no samples, is counted')
+            n += 1
+    return n
+
+
+def _constv(F, e):
+    nd = F.ex[F.strip_casts(e)]
+    if nd['k'] == 'int':
+        return nd['v']
+    if nd['k'] == 'un' and nd['op'] == '-':
+        c = _constv(F, nd['c'][0])
+        return -c if c is not None else None
+    return None
+
+
 def run(chk, P):
+    r09_6(chk, P)
+    chk.floor('R09.6', 3)
     r09_1(chk, P)
     chk.floor('R09.1', 40)
     r09_3(chk, P)
